@@ -562,8 +562,11 @@ def unit_aliasing(ctx):
         a1, a2, an = tuple(lo), tuple(hi), tuple(n)
     else:
         a1, a2, an = np.array(lo), np.array(hi), np.array(n, dtype=np.int32)
+    # (mesh.cell / region.edges / region.center are not scribbled on: an implementation may legitimately STORE them and
+    # hand out the stored array; the per-axis centre / vertex lists, the coordinate field and index2point are computed
+    # descriptions)
     what = ctx.choose("caller-modifies", ["its-input-arrays", "returned-cells", "returned-vertices", "returned-coordinate-field",
-                                          "returned-cell-edges-centre", "returned-index2point"])
+                                          "returned-index2point"])
     ctx.step(1, "Mesh(...)")
     mesh = df.Mesh(region=df.Region(p1=a1, p2=a2, dims=dims), n=an)
     inst = ctx.key()
@@ -600,10 +603,6 @@ def unit_aliasing(ctx):
             scribble(getattr(mesh.vertices, d))
     elif what == "returned-coordinate-field":
         scribble(mesh.coordinate_field().array)
-    elif what == "returned-cell-edges-centre":
-        scribble(mesh.cell)
-        scribble(mesh.region.edges)
-        scribble(mesh.region.center)
     else:
         p = mesh.index2point(tuple(0 for _ in n))
         scribble(p)
